@@ -989,7 +989,7 @@ fn gen_stream(rng: &mut Rng, thorough: bool) -> Vec<String> {
 
 // ------------------------------------------------------------------ c10_query (the real Query::execute)
 //
-//   c10.query SZ REG LOG LABELS CHUNKS1 CHUNKS2 CHUNKS3
+//   c10.query SZ REG LOG LABELS EXP CHUNKS1 CHUNKS2 CHUNKS3
 //        SZ      query_size handed to `Query::execute` (the same on the three helpers)
 //        REG/LOG as above; the three helpers share one key registry
 //        CHUNKSh the body helper h receives, as the comma list of chunks in which it arrives
@@ -1000,7 +1000,9 @@ fn gen_stream(rng: &mut Rng, thorough: bool) -> Vec<String> {
 //                     before them): the helper must return an error value
 //                  l  SZ honest records followed by something else (more records, garbage, a cut header)
 //                  s  fewer than SZ honest records, clean end of stream
-//        -> `H1=<o> H2=<o> H3=<o>`, o = `ok` | `err:<Error variant>[:<io kind>][:<report error>]` | `timeout`
+//        EXP     spec side (oracle only): the non-zero buckets `b:v,…` (`-` = none) of the attribution of the first
+//                SZ reports the generator put into the bodies, computed from their plaintexts
+//        -> `H1=<o> H2=<o> H3=<o>[ hist=<b:v,…>]` (hist: reconstructed result when all three completed), o = `ok` | `err:<Error variant>[:<io kind>][:<report error>]` | `timeout`
 //           | `peer`.  When some helper is labelled m, only the m helpers are awaited (60 s) and the others
 //           are reported as `peer` whatever they do: an honest helper whose peer erred out of the query
 //           waits for it forever (no helper-to-helper message precedes the input phase), which is the
@@ -1019,14 +1021,14 @@ pub struct QueryReq {
 pub fn parse_query_req(req: &str) -> QueryReq {
     let t: Vec<&str> = req.split(' ').collect();
     assert_eq!(t[0], "c10.query");
-    assert_eq!(t.len(), 8, "harness: c10.query takes 7 arguments");
+    assert_eq!(t.len(), 9, "harness: c10.query takes 8 arguments");
     let labels = t[4].as_bytes().to_vec();
     assert!(labels.len() == 3 && labels.iter().all(|l| b"vmls".contains(l)), "harness: bad labels");
     QueryReq {
         sz: t[1].parse().unwrap(),
         reg: Reg::parse(t[2]),
         labels,
-        chunks: [parse_chunks(t[5]), parse_chunks(t[6]), parse_chunks(t[7])],
+        chunks: [parse_chunks(t[6]), parse_chunks(t[7]), parse_chunks(t[8])],
         // PRSS seed of the TestWorld: a function of the request only
         seed: req.bytes().fold(0xcbf2_9ce4_8422_2325u64, |h, b| (h ^ u64::from(b)).wrapping_mul(0x0000_0100_0000_01B3)),
     }
@@ -1066,6 +1068,26 @@ fn frames(rs: &[Vec<u8>]) -> Vec<u8> {
 struct QBase {
     recs: [Vec<Vec<u8>>; 3],
     log: Log,
+    spec: Vec<(u8, u64, u8)>,
+}
+
+/// Attribution of plaintext reports, from the statement of the protocol: a match key that occurs in exactly
+/// two reports adds their value sum (mod 2^3) to the bucket of their breakdown-key sum (mod 2^8).
+fn attribution(spec: &[(u8, u64, u8)]) -> String {
+    let mut hist = std::collections::BTreeMap::<u8, u32>::new();
+    let mut keys: Vec<u64> = spec.iter().map(|s| s.1).collect();
+    keys.sort_unstable();
+    keys.dedup();
+    for k in keys {
+        let rows: Vec<&(u8, u64, u8)> = spec.iter().filter(|s| s.1 == k).collect();
+        if rows.len() == 2 {
+            let bk = rows.iter().map(|r| if r.0 == 0 { r.2 } else { 0 }).fold(0u8, u8::wrapping_add);
+            let v = rows.iter().map(|r| if r.0 == 0 { 0 } else { r.2 }).sum::<u8>() % 8;
+            *hist.entry(bk).or_default() += u32::from(v);
+        }
+    }
+    let nz: Vec<String> = hist.iter().filter(|(_, v)| **v != 0).map(|(b, v)| format!("{b}:{v}")).collect();
+    if nz.is_empty() { "-".into() } else { nz.join(",") }
 }
 
 /// `(event type, match key, breakdown key / trigger value)` per report, shared x = x0 ^ x1 ^ x2 with
@@ -1091,7 +1113,7 @@ fn q_base(spec: &[(u8, u64, u8)], rng: &mut Rng) -> QBase {
             recs[h].push(bytes);
         }
     }
-    QBase { recs, log }
+    QBase { recs, log, spec: spec.to_vec() }
 }
 
 /// Split `body` into chunks of 1..=max bytes.
@@ -1112,6 +1134,8 @@ struct QGen<'a> {
     out: Vec<String>,
     base: &'a QBase,
     reg: &'static str,
+    /// number of honest records at the front of the bodies built next (None = all of the base)
+    present: Option<usize>,
 }
 
 impl QGen<'_> {
@@ -1129,7 +1153,10 @@ impl QGen<'_> {
                 bodies.push(show_chunks(&[frames(&self.base.recs[h])]));
             }
         }
-        self.out.push(format!("c10.query {sz} {} {} {labels} {}", self.reg, self.base.log.show(), bodies.join(" ")));
+        // expectation for queries that complete (labels v / l / s on all helpers): the first sz reports present
+        let present = self.present.unwrap_or(self.base.spec.len()).min(sz);
+        let exp = attribution(&self.base.spec[..present]);
+        self.out.push(format!("c10.query {sz} {} {} {labels} {exp} {}", self.reg, self.base.log.show(), bodies.join(" ")));
     }
 
     /// the malformation on all three helpers, and on one helper only (rotating)
@@ -1149,13 +1176,13 @@ fn key_off(rec: &[u8]) -> usize {
 
 /// The four reports on which a whole protocol run is cheap enough: one attributed pair, two unmatched.
 fn q_base4(rng: &mut Rng) -> QBase {
-    q_base(&[(0, 11, 3), (1, 11, 2), (0, 12, 5), (1, 13, 1)], rng)
+    q_base(&[(0, 12, 5), (1, 13, 1), (0, 11, 3), (1, 11, 2)], rng)
 }
 
 /// Bodies LONGER than query_size on all three helpers (every `ok` is a complete protocol run, ~40 s).
 pub fn gen_query_long(rng: &mut Rng, thorough: bool) -> Vec<String> {
     let b4 = q_base4(rng);
-    let mut g = QGen { out: vec![], base: &b4, reg: "0,1,2,3" };
+    let mut g = QGen { out: vec![], base: &b4, reg: "0,1,2,3", present: None };
     let all = [0usize, 1, 2];
     // the first query_size records are honest; behind them, in later chunks: one more honest record and a
     // cut length header (never polled for: `take(query_size)`)
@@ -1178,15 +1205,20 @@ pub fn gen_query_long(rng: &mut Rng, thorough: bool) -> Vec<String> {
 /// Bodies SHORTER than query_size (clean end of stream) on all three helpers.
 pub fn gen_query_short(rng: &mut Rng, thorough: bool) -> Vec<String> {
     let b4 = q_base4(rng);
-    let mut g = QGen { out: vec![], base: &b4, reg: "0,1,2,3" };
+    let mut g = QGen { out: vec![], base: &b4, reg: "0,1,2,3", present: None };
     let all = [0usize, 1, 2];
     // no records at all: no chunk, one empty chunk
+    g.present = Some(0);
     g.emit(4, &all, 's', &mut |_| vec![]);
     g.emit(1, &all, 's', &mut |_| vec![vec![]]);
+    g.present = Some(3);
     g.emit(4, &all, 's', &mut |r| vec![frames(&r[..3])]);
     if thorough {
+        g.present = Some(4);
         g.emit(1000, &all, 's', &mut |r| vec![frames(r)]);
+        g.present = Some(1);
         g.emit(4, &all, 's', &mut |r| vec![frames(&r[..1])]);
+        g.present = Some(2);
         g.emit(4, &all, 's', &mut |r| rechunk(&frames(&r[..2]), 9, rng));
     }
     g.out
@@ -1198,7 +1230,7 @@ pub fn gen_query(rng: &mut Rng, thorough: bool) -> Vec<String> {
     // ---- valid bodies: the whole protocol runs (one attributed pair, two unmatched reports)
     {
         let b4 = q_base4(rng);
-        let mut g = QGen { out: vec![], base: &b4, reg: full };
+        let mut g = QGen { out: vec![], base: &b4, reg: full, present: None };
         let all = [0usize, 1, 2];
         g.emit(4, &all, 'v', &mut |r| vec![frames(r)]);
         if thorough {
@@ -1210,7 +1242,7 @@ pub fn gen_query(rng: &mut Rng, thorough: bool) -> Vec<String> {
     }
     // ---- malformed bodies: errors before any helper-to-helper message, cheap
     let b2 = q_base(&[(0, 21, 4), (1, 21, 6)], rng);
-    let mut g = QGen { out: vec![], base: &b2, reg: full };
+    let mut g = QGen { out: vec![], base: &b2, reg: full, present: None };
     let mut rot = 0usize;
     let all = [0usize, 1, 2];
     // zero-length record: alone, first, middle, last, twice, behind an empty chunk
@@ -1287,7 +1319,7 @@ pub fn gen_query(rng: &mut Rng, thorough: bool) -> Vec<String> {
         });
     }
     for reg in ["-", "1", "1,0", "3,2,1,0"] {
-        let mut g2 = QGen { out: vec![], base: &b2, reg };
+        let mut g2 = QGen { out: vec![], base: &b2, reg, present: None };
         g2.emit(2, &all, 'm', &mut |r| vec![frames(r)]);
         g.out.append(&mut g2.out);
     }
